@@ -34,6 +34,9 @@ def run(chk, replay=None):
             scen += 1; fam.append(sendlib.rr_script(seq, t, scen, idents=True))
         for s in fam: chk.case(("rrid", t, s["scen"]))
         sendlib.run_and_report(chk, fam, "c10id-" + t, ("C10/",))
+    shp = sendlib.shape_scripts(800000)
+    for s in shp: chk.case(("shape", s["sock"], s["tag"]))
+    sendlib.run_and_report(chk, shp, "c10-shapes", ("C10/",))
     rnd = []
     for t in ("PUSH", "DEALER", "REQ"):
         for i in range(800 if thorough else 120):
